@@ -226,6 +226,48 @@ pub fn c06(ctx: &Ctx) {
     for r in table.iter().take(3) {
         ev::sample(r.clone());
     }
+    // one image of more than 2^20 pixels per direction (thresholds on the image size; worker splits)
+    if !ctx.flag("lite") || ctx.flag("big") {
+        let mut rng = Rng::new(ctx.seed, 0x0C06_B16);
+        let n = (1usize << 20) + 5;
+        let px: Vec<[f32; 3]> = (0..n as u64).map(|i| c06_px(&mut rng, i)).collect();
+        for (k, p) in [CP::BT2020, CP::P3DCI, CP::BT470M].into_iter().enumerate() {
+            for dir in 0..2 {
+                if (k + dir + ctx.seed as usize) % 2 == 1 && ctx.flag("lite") {
+                    continue;
+                }
+                let (from, to) = if dir == 0 { (p, CP::BT709) } else { (CP::BT709, p) };
+                let m = primaries_matrix(from, to);
+                let Ok(out) = conv(px.clone(), n, 1, p, dir) else { continue };
+                let mut w = Worst::new();
+                if out.len() == n {
+                    for i in (0..64).chain(n - 64..n).chain((0..4096).map(|_| rng.below(n as u64) as usize)) {
+                        let q = px[i];
+                        if !q.iter().all(|v| *v >= -0.5 && *v <= 2.0) {
+                            continue;
+                        }
+                        let want = mat_vec(m, px64(q));
+                        for c in 0..3 {
+                            w.upd((out[i][c] as f64 - want[c]).abs() / want[c].abs().max(1.0), (q, c, out[i][c], want[c]));
+                        }
+                    }
+                } else {
+                    w.upd(f64::NAN, ([0.0; 3], 0, 0.0, 0.0));
+                }
+                evals.fetch_add(4224, Relaxed);
+                if !(w.err <= 1e-5) {
+                    if let Some((q, c, got, want)) = w.at {
+                        ev::violation(
+                            format!("C06|big-image|{p:?}|dir={dir}"),
+                            format!("in one {n}-pixel image, pixel {q:?} component {c}: got {got:e}, want {want:e}"),
+                            J::obj().set("kind", "primaries").set("check", "accuracy").set("primaries", format!("{p:?}")).set("dir", dir).set("pixel", px_json(q)),
+                        );
+                    }
+                }
+            }
+        }
+        ev::observe("big_image_pixels", n);
+    }
     // the primaries stage must also run when the *transfer* is left Unspecified (documented: treated as sRGB),
     // and an Unspecified primaries field means BT.709: bit-identical to the spelled-out request
     {
@@ -263,6 +305,28 @@ pub fn c06(ctx: &Ctx) {
                         format!("C06|unspecified-field-skips-stage|{p:?}|dir=1"),
                         format!("Rgb::try_from((LinearRgb, {t:?}, {p:?})) differs in samples or labels from the request ({wt:?}, {wp:?}) (labels {:?}; ok: {})", a.as_ref().map(|r| (r.transfer(), r.primaries())), b.is_some()),
                         case(1),
+                    ),
+                }
+            }
+        }
+        // an image refilled with clone_from converts like the image it was filled from
+        for p1 in PRIMARIES {
+            for p2 in [CP::BT709, CP::BT2020, CP::P3Display] {
+                if p1 == p2 {
+                    continue;
+                }
+                cases += 1;
+                let src = Rgb::new(px.clone(), n, 1, TC::Linear, p1).unwrap();
+                let mut buf = Rgb::new(vec![[0.5; 3]; 4], 2, 2, TC::Linear, p2).unwrap();
+                buf.clone_from(&src);
+                let a = LinearRgb::try_from(buf).ok();
+                let b = LinearRgb::try_from(src).ok();
+                match (a, b) {
+                    (Some(a), Some(b)) if same(a.data(), b.data()) => {}
+                    _ => ev::violation(
+                        format!("C06|refilled-image|{p1:?}"),
+                        format!("an Rgb that held {p2:?} data and was refilled with clone_from from a {p1:?} image does not convert like that image"),
+                        J::obj().set("kind", "primaries-unspecified").set("primaries", format!("{p1:?}")).set("transfer", "Linear").set("dir", 0),
                     ),
                 }
             }
